@@ -57,6 +57,7 @@ pub trait ExTok { fn ex(&self) -> String; }
 impl ExTok for f64 { fn ex(&self) -> String { exact_tok(*self) } }
 impl ExTok for f32 { fn ex(&self) -> String { exact_tok(*self as f64) } }
 impl ExTok for i32 { fn ex(&self) -> String { self.tok() } }
+impl ExTok for Option<i32> { fn ex(&self) -> String { self.tok() } }
 impl ExTok for Option<f64> {
     fn ex(&self) -> String {
         match self {
@@ -98,6 +99,11 @@ macro_rules! dispatch {
 pub fn run(r: &Req) -> Option<String> {
     let w = r.usize("w");
     let mp = r.opt_usize("mp");
+    let f = r.f.as_str();
+    // cross-cutting regimes (every backend / output container / out-buffer path): shared dispatch
+    if super::FNS.contains(&f) && r.s("b") != "deque" && crate::rollrun::regime(r) != "types" {
+        return Some(crate::roll1_dispatch!(r, with_xs_all, with_xs_f, |view, OC, U, out| crate::roll1_valid_call!(f, view, OC, U, out, w, mp, r).unwrap()));
+    }
     match r.f.as_str() {
         "ts_vmin" => Some(dispatch!(r, view, O => { let out: Vec<O> = view.ts_vmin(w, mp); ex_toks(&out) })),
         "ts_vmax" => Some(dispatch!(r, view, O => { let out: Vec<O> = view.ts_vmax(w, mp); ex_toks(&out) })),
